@@ -69,6 +69,7 @@ type brRec struct {
 	generic  []brEvent
 	delayVal time.Duration // value the delay function returns for the execution in progress (-1: no computed delay)
 	dfCalls  int
+	dfBad    string // the delay function was handed something else than the failure being recorded
 }
 
 func buildBreaker(c brCfg, rec *brRec) circuitbreaker.CircuitBreaker[string] {
@@ -91,6 +92,9 @@ func buildBreaker(c brCfg, rec *brRec) circuitbreaker.CircuitBreaker[string] {
 			b = b.WithSuccessThresholdRatio(c.Sthr, c.Scap)
 		}
 	}
+	if rec != nil {
+		b = b.HandleErrors(errBoom).HandleResult("bad")
+	}
 	if c.Delay >= 2000000000 {
 		b = b.WithDelay(time.Duration(1<<63 - 1)) // effectively forever
 	} else {
@@ -99,6 +103,10 @@ func buildBreaker(c brCfg, rec *brRec) circuitbreaker.CircuitBreaker[string] {
 	if rec != nil {
 		b = b.WithDelayFunc(func(exec failsafe.ExecutionAttempt[string]) time.Duration {
 			rec.dfCalls++
+			// the breaker opens for a delay computed from the failure that trips it
+			if !errors.Is(exec.LastError(), errBoom) || exec.LastResult() != "" {
+				rec.dfBad = fmt.Sprintf("the delay function was given (%q, %v), not the failing outcome (\"\", boom)", exec.LastResult(), exec.LastError())
+			}
 			return rec.delayVal
 		})
 		sp := func(e circuitbreaker.StateChangedEvent) {
@@ -122,9 +130,26 @@ func replayBreaker(c brCfg, steps []brStep) (mis string, step int, nontrivial bo
 		ret := "none"
 		switch s.Act {
 		case "RecordSuccess":
-			cb.RecordSuccess()
+			// the standalone spellings of "this went well" (the breaker handles errBoom and the result "bad", nothing else)
+			switch i % 4 {
+			case 0:
+				cb.RecordSuccess()
+			case 1:
+				cb.RecordResult("r")
+			case 2:
+				cb.RecordError(errOther)
+			case 3:
+				cb.RecordError(nil)
+			}
 		case "RecordFailure":
-			cb.RecordFailure()
+			switch i % 4 {
+			case 0, 3:
+				cb.RecordFailure()
+			case 1:
+				cb.RecordError(fmt.Errorf("wrapped: %w", errBoom))
+			case 2:
+				cb.RecordResult("bad")
+			}
 		case "TryAcquirePermit":
 			if cb.TryAcquirePermit() {
 				ret = "true"
@@ -170,6 +195,9 @@ func replayBreaker(c brCfg, steps []brStep) (mis string, step int, nontrivial bo
 		default:
 			return "unknown act " + s.Act, i, false
 		}
+		if rec.dfBad != "" {
+			return rec.dfBad, i, true
+		}
 		st := stateName(cb.State())
 		if st != "closed" {
 			nontrivial = true
@@ -205,6 +233,7 @@ func replayBreaker(c brCfg, steps []brStep) (mis string, step int, nontrivial bo
 }
 
 var errBoom = errors.New("boom")
+var errOther = errors.New("other")
 
 func eventsEqual(a, b []brEvent) bool {
 	if len(a) != len(b) {
